@@ -173,7 +173,50 @@ class Ctx:
                 pass
             self._harness = None
 
+    # ---- simulated processes (fresh interpreters under a chosen hash seed), reused across runs
+    def proc(self, hashseed):
+        if not hasattr(self, '_procs'):
+            self._procs = {}
+        p = self._procs.get(hashseed)
+        if p is not None and p.poll() is None:
+            return p
+        if len(self._procs) >= 12:
+            old = next(iter(self._procs))
+            self._kill_proc(old)
+        cmd = [PY, '-X', 'utf8', '-m', 'sim.procjob']
+        if os.path.exists('/usr/bin/setarch'):
+            cmd = ['setarch', os.uname().machine, '-R'] + cmd
+        p = subprocess.Popen(cmd, env=worker_env(hashseed), cwd=VERIF, stdin=subprocess.PIPE, stdout=subprocess.PIPE,
+                             stderr=subprocess.DEVNULL, text=True)
+        line = p.stdout.readline()
+        if not line:
+            raise RuntimeError('simulated process (hashseed %s) failed to start' % hashseed)
+        self._procs[hashseed] = p
+        return p
+
+    def ask(self, hashseed, job):
+        p = self.proc(hashseed)
+        p.stdin.write(json.dumps(job) + '\n')
+        p.stdin.flush()
+        line = p.stdout.readline()
+        if not line:
+            self._kill_proc(hashseed)
+            return {'error': 'ProcessDied', 'message': 'simulated process died'}
+        return json.loads(line)
+
+    def _kill_proc(self, hashseed):
+        p = self._procs.pop(hashseed, None)
+        if p is not None:
+            try:
+                p.stdin.close()
+                p.kill()
+                p.wait(timeout=5)
+            except Exception:
+                pass
+
     def close(self):
+        for h in list(getattr(self, '_procs', {})):
+            self._kill_proc(h)
         if self._harness is not None:
             self._harness.close()
 
